@@ -449,6 +449,7 @@ def run(ctx):
     _run_rules(ctx)
     from .. import boundaries
     boundaries.check(ctx, 'C03.RB', 'C03')
+    boundaries.check_layering(ctx, 'C03.RL')
     boundaries.check_inits(ctx, 'C03.RI', 'C03')
     boundaries.check_codes(ctx, 'C03.RE', 'C03')
     boundaries.check_writes(ctx, 'C03.RW', 'C03')
